@@ -99,17 +99,8 @@ Qed.
 
 (* ---------- barWriteRunes ---------- *)
 (* #15 repaired: never a panic, whatever the maximum *)
-Theorem bar_runes_total c val maxVal maxLen : bar_runes c val maxVal maxLen <> Panic.
+Theorem bar_runes_total c val maxVal maxLen limit : bar_runes c val maxVal maxLen limit <> Panic.
 Proof. unfold bar_runes. discriminate. Qed.
-(* what the repair changes: exactly the maxima <= 0 *)
-Theorem bar_runes_repair c val maxVal maxLen :
-  (0 < maxVal -> bar_runes_unrepaired c val maxVal maxLen = bar_runes c val maxVal maxLen) /\
-  (maxVal = 0 -> bar_runes_unrepaired c val maxVal maxLen = Panic).
-Proof.
-  unfold bar_runes_unrepaired, bar_runes, bar_blocks. split; intros H.
-  - destruct (Z.eqb_spec maxVal 0). lia. destruct (Z.leb_spec maxVal 0). lia. reflexivity.
-  - subst. reflexivity.
-Qed.
 
 Lemma bar_blocks_le val maxVal maxLen : 0 <= maxLen -> bar_blocks val maxVal maxLen <= maxLen.
 Proof.
@@ -129,38 +120,63 @@ Proof.
   apply Z.quot_pos. nia. lia.
 Qed.
 
-(* 0 <= |bar| <= len, monotone in the value *)
-Theorem bar_runes_bounds c val maxVal maxLen s : 0 <= maxLen ->
-  bar_runes c val maxVal maxLen = Ok s -> 0 <= lenZ s <= maxLen.
+(* what the repair of #15 changed: exactly the maxima <= 0 (a limit of the whole width is no limit) *)
+Theorem bar_runes_repair c val maxVal maxLen : 0 <= maxLen ->
+  (0 < maxVal -> bar_runes_unrepaired c val maxVal maxLen = bar_runes c val maxVal maxLen maxLen) /\
+  (maxVal = 0 -> bar_runes_unrepaired c val maxVal maxLen = Panic).
 Proof.
-  intros H E. unfold bar_runes in E. inversion E; subst. rewrite rep_length.
+  intros HL. unfold bar_runes_unrepaired, bar_runes, bar_written. split; intros H.
+  - pose proof (bar_blocks_le val maxVal maxLen HL) as B. unfold bar_blocks in *.
+    destruct (Z.eqb_spec maxVal 0). lia. destruct (Z.leb_spec maxVal 0). lia.
+    f_equal. unfold rep. f_equal. lia.
+  - subst. reflexivity.
+Qed.
+
+(* 0 <= |bar| <= len (and <= the limit), monotone in the value *)
+Theorem bar_runes_bounds c val maxVal maxLen limit s : 0 <= maxLen ->
+  bar_runes c val maxVal maxLen limit = Ok s -> 0 <= lenZ s <= maxLen /\ lenZ s <= Z.max 0 limit.
+Proof.
+  intros H E. unfold bar_runes, bar_written in E. inversion E; subst. rewrite rep_length.
   pose proof (bar_blocks_le val maxVal maxLen H). lia.
 Qed.
-Theorem bar_runes_mono c v v' maxVal maxLen s s' : 0 <= maxLen -> v <= v' ->
-  bar_runes c v maxVal maxLen = Ok s -> bar_runes c v' maxVal maxLen = Ok s' -> lenZ s <= lenZ s'.
+Theorem bar_runes_mono c v v' maxVal maxLen limit s s' : 0 <= maxLen -> v <= v' ->
+  bar_runes c v maxVal maxLen limit = Ok s -> bar_runes c v' maxVal maxLen limit = Ok s' -> lenZ s <= lenZ s'.
 Proof.
-  intros H Hv E E'. unfold bar_runes in *. inversion E; inversion E'; subst. rewrite !rep_length.
+  intros H Hv E E'. unfold bar_runes, bar_written in *. inversion E; inversion E'; subst. rewrite !rep_length.
   pose proof (bar_blocks_mono v v' maxVal maxLen H Hv). lia.
 Qed.
 
 (* ---------- stacked bars ---------- *)
+(* the visible width: what each segment writes, given what is left of the bar *)
+Fixpoint stk_sum (maxVal maxLen remaining : Z) (vals : list Z) : Z :=
+  match vals with
+  | [] => 0
+  | v :: r => bar_written v maxVal maxLen remaining +
+              stk_sum maxVal maxLen (remaining - bar_written v maxVal maxLen remaining) r
+  end.
+(* the sum of the individually scaled segments (no cut) *)
 Definition seg_sum (maxVal maxLen : Z) (vals : list Z) : Z :=
   fold_right (fun v a => Z.max 0 (bar_blocks v maxVal maxLen) + a) 0 vals.
 
-(* total and visible width of a stacked bar: the sum of its segments *)
-Lemma bar_stacked_from_len col uni maxVal maxLen : forall vals i,
-  exists s, bar_stacked_from col uni i maxVal maxLen vals = Ok s /\
-            str_len col s = seg_sum maxVal maxLen vals /\ closed col s.
+Lemma bar_written_rep_len v maxVal maxLen remaining :
+  Z.max 0 (bar_written v maxVal maxLen remaining) = bar_written v maxVal maxLen remaining.
+Proof. unfold bar_written. lia. Qed.
+
+Lemma bar_stacked_from_len col uni maxVal maxLen : forall vals i remaining,
+  exists s, bar_stacked_from col uni i maxVal maxLen remaining vals = Ok s /\
+            str_len col s = stk_sum maxVal maxLen remaining vals /\ closed col s.
 Proof.
   destruct blocks_no_esc as [F [NB _]].
-  induction vals as [|v r IH]; intros i; cbn [bar_stacked_from].
+  induction vals as [|v r IH]; intros i remaining; cbn [bar_stacked_from stk_sum].
   - exists []. split. reflexivity. split. apply str_len_nil. apply closed_nil.
-  - destruct (IH (S i)) as [rest [Er [Lr Cr]]]. rewrite Er. clear IH.
+  - destruct (IH (S i) (remaining - bar_written v maxVal maxLen remaining)) as [rest [Er [Lr Cr]]].
+    rewrite Er. clear IH.
     destruct col.
     + destruct (group_color_ok i) as [c [Ec Okc]]. rewrite Ec. cbn [rbind bar_runes].
       set (ch := if uni then fullBlock else nonUnicodeBlock).
       assert (Hch : ch <> ESC) by (unfold ch; destruct uni; assumption).
-      destruct (str_len_rep true (bar_blocks v maxVal maxLen) ch Hch) as [L C].
+      destruct (str_len_rep true (bar_written v maxVal maxLen remaining) ch Hch) as [L C].
+      rewrite bar_written_rep_len in L.
       destruct (cwrite_len true c _ Okc C) as [L2 C2].
       eexists. split. reflexivity. split.
       * rewrite str_len_app by assumption. rewrite L2, L, Lr. reflexivity.
@@ -169,7 +185,8 @@ Proof.
       assert (Hch : ch <> ESC).
       { pose proof bar_ascii_no_esc as G. rewrite forallb_forall in G. specialize (G ch I).
         apply negb_true_iff in G. apply N.eqb_neq in G. assumption. }
-      destruct (str_len_rep false (bar_blocks v maxVal maxLen) ch Hch) as [L C].
+      destruct (str_len_rep false (bar_written v maxVal maxLen remaining) ch Hch) as [L C].
+      rewrite bar_written_rep_len in L.
       eexists. split. reflexivity. split.
       * rewrite str_len_app by assumption. rewrite L, Lr. reflexivity.
       * apply closed_app; assumption.
@@ -177,17 +194,52 @@ Qed.
 
 Theorem bar_stacked_total col uni maxVal maxLen vals : bar_stacked col uni maxVal maxLen vals <> Panic.
 Proof.
-  unfold bar_stacked. destruct (bar_stacked_from_len col uni maxVal maxLen vals 0%nat) as [s [E _]].
+  unfold bar_stacked. destruct (bar_stacked_from_len col uni maxVal maxLen vals 0%nat maxLen) as [s [E _]].
   rewrite E. discriminate.
 Qed.
 
-(* sum of the segments: with non-negative values whose total the maximum bounds (what BarGraph
-   maintains), the stacked bar never exceeds its width *)
+(* whatever the values and the maximum: the segments fit into what is left *)
+Lemma stk_sum_bound maxVal maxLen : forall vals remaining,
+  0 <= stk_sum maxVal maxLen remaining vals <= Z.max 0 remaining.
+Proof.
+  induction vals as [|v r IH]; intros remaining; cbn [stk_sum]. lia.
+  specialize (IH (remaining - bar_written v maxVal maxLen remaining)).
+  unfold bar_written in *. lia.
+Qed.
+
+(* "bars never exceed their maximum width", stacked, for ALL integers (values, maximum) *)
+Theorem bar_stacked_bounds col uni maxVal maxLen vals s : 0 <= maxLen ->
+  bar_stacked col uni maxVal maxLen vals = Ok s -> 0 <= str_len col s <= maxLen.
+Proof.
+  intros HL E. unfold bar_stacked in E.
+  destruct (bar_stacked_from_len col uni maxVal maxLen vals 0%nat maxLen) as [s' [E' [L _]]].
+  rewrite E in E'. inversion E'; subst s'. rewrite L.
+  pose proof (stk_sum_bound maxVal maxLen vals maxLen). lia.
+Qed.
+
+(* and the cut does not bite in the regular case: with non-negative values whose total the
+   maximum bounds (what BarGraph draws when no value is negative) every segment has its own
+   proportional length floor(v * len / max) *)
+Lemma seg_sum_cons maxVal maxLen v r :
+  seg_sum maxVal maxLen (v :: r) = Z.max 0 (bar_blocks v maxVal maxLen) + seg_sum maxVal maxLen r.
+Proof. reflexivity. Qed.
+Lemma seg_sum_nonneg maxVal maxLen r : 0 <= seg_sum maxVal maxLen r.
+Proof. induction r as [|v r IH]. unfold seg_sum; simpl; lia. rewrite seg_sum_cons. lia. Qed.
+Lemma stk_sum_exact maxVal maxLen : forall vals remaining,
+  seg_sum maxVal maxLen vals <= remaining -> stk_sum maxVal maxLen remaining vals = seg_sum maxVal maxLen vals.
+Proof.
+  induction vals as [|v r IH]; intros remaining H; cbn [stk_sum]. reflexivity.
+  rewrite seg_sum_cons in *. pose proof (seg_sum_nonneg maxVal maxLen r) as N.
+  assert (W : bar_written v maxVal maxLen remaining = Z.max 0 (bar_blocks v maxVal maxLen)).
+  { unfold bar_written. lia. }
+  rewrite W, IH. reflexivity. lia.
+Qed.
 Lemma seg_sum_bound maxVal maxLen : 0 <= maxLen -> 0 < maxVal -> forall vals,
   Forall (fun v => 0 <= v) vals ->
   seg_sum maxVal maxLen vals * maxVal <= fold_right Z.add 0 vals * maxLen.
 Proof.
-  intros HL HM. induction 1 as [|v r Hv Hr IH]; simpl. lia.
+  intros HL HM. induction 1 as [|v r Hv Hr IH]. simpl. lia.
+  rewrite seg_sum_cons. cbn [fold_right].
   assert (B : Z.max 0 (bar_blocks v maxVal maxLen) * maxVal <= v * maxLen).
   { pose proof (bar_blocks_nonneg v maxVal maxLen HL Hv).
     unfold bar_blocks in *. destruct (Z.leb_spec maxVal 0). lia.
@@ -197,28 +249,15 @@ Proof.
     nia. }
   nia.
 Qed.
-Theorem bar_stacked_bounds col uni maxVal maxLen vals s : 0 <= maxLen ->
+Theorem bar_stacked_proportional col uni maxVal maxLen vals s : 0 <= maxLen -> 0 < maxVal ->
   Forall (fun v => 0 <= v) vals -> fold_right Z.add 0 vals <= maxVal ->
-  bar_stacked col uni maxVal maxLen vals = Ok s -> 0 <= str_len col s <= maxLen.
+  bar_stacked col uni maxVal maxLen vals = Ok s -> str_len col s = seg_sum maxVal maxLen vals.
 Proof.
-  intros HL Hv Hs E. unfold bar_stacked in E.
-  destruct (bar_stacked_from_len col uni maxVal maxLen vals 0%nat) as [s' [E' [L _]]].
-  rewrite E in E'. inversion E'; subst s'. rewrite L.
-  assert (N : 0 <= seg_sum maxVal maxLen vals).
-  { clear. induction vals; simpl; lia. }
-  split. assumption.
-  destruct (Z.leb_spec maxVal 0) as [M|M].
-  - (* maximum <= 0: no segment at all *)
-    assert (Z0 : seg_sum maxVal maxLen vals = 0).
-    { clear -M. induction vals as [|v r IH]; simpl. reflexivity.
-      unfold bar_blocks at 1. destruct (Z.leb_spec maxVal 0); lia. }
-    lia.
-  - pose proof (seg_sum_bound maxVal maxLen HL M vals Hv). nia.
+  intros HL HM Hv Hs E. unfold bar_stacked in E.
+  destruct (bar_stacked_from_len col uni maxVal maxLen vals 0%nat maxLen) as [s' [E' [L _]]].
+  rewrite E in E'. inversion E'; subst s'. rewrite L. apply stk_sum_exact.
+  pose proof (seg_sum_bound maxVal maxLen HL HM vals Hv). nia.
 Qed.
-(* the restriction to non-negative values is necessary (recorded finding C14-stacked-negative) *)
-Theorem bar_stacked_bounds_refuted :
-  exists s, bar_stacked false false 15 50 [-5; 10; 10] = Ok s /\ 50 < str_len false s.
-Proof. eexists. split. vm_compute. reflexivity. vm_compute. reflexivity. Qed.
 
 (* ---------- BarWrite ---------- *)
 Section BarWrite.
